@@ -2458,13 +2458,13 @@ impl ModuleGraph {
 
     // walk the graph
     while let Some(specifier) = seen_pending.next_pending() {
-      let specifier = match self.redirects.get(&specifier) {
-        Some(redirected_specifier) => {
-          seen_pending.add(redirected_specifier.clone());
-          continue;
-        }
-        None => specifier,
-      };
+      // a redirect source can have an entry of its own (an error recorded on
+      // a member of a redirect chain, or a module the loader reported under a
+      // specifier that a lockfile still redirects): keep what the redirect
+      // leads to and prune the entry as well
+      if let Some(redirected_specifier) = self.redirects.get(&specifier) {
+        seen_pending.add(redirected_specifier.clone());
+      }
       let Some(module) = self.module_slots.get_mut(&specifier) else {
         continue;
       };
